@@ -550,6 +550,12 @@ func init() {
 		batches: []batch{{name: "faultfree", params: map[string]string{"full": "1"}, quick: 1600, thorough: 60000},
 			{name: "manyfiles", params: map[string]string{"many": "1"}, quick: 16, thorough: 300, chunk: 1}},
 		rule:    "each evaluation is one simulated end-to-end transfer (generated source tree x configuration vector x transport profile x schedule) on a fault-free link; non-trivial = both sides reported success and the file-system oracle compared every transferred entry; distinct = distinct (configuration class, schedule-trace hash) pairs"})
+	reg(&propDef{id: "C02", level: "exploration", crashIsViol: false,
+		batches: []batch{{name: "bytefaults", quick: 3000, thorough: 120000}},
+		rule:    "each evaluation is one simulated transfer (1-3 small files, protocols 1-4, base64/binary/compressed/escaped, resume with hash exchange) in which 1-3 byte-level faults (bit flip, deletion, duplication, insertion, truncation) are applied to tape-chosen chunks and positions (biased to the structural bytes of a line) of either direction of one hop; non-trivial = at least one fault actually altered bytes and both roles ended; distinct = distinct (configuration + fault placement class, schedule-trace hash, tape hash)"})
+	reg(&propDef{id: "C11", level: "exploration", crashIsViol: false,
+		batches: []batch{{name: "flowfaults", quick: 2600, thorough: 100000}},
+		rule:    "each evaluation is one simulated transfer in which, after the ACT has been written towards the server, one fault is injected at a tape-chosen message: a direction (or both) goes silent, a link closes or starts failing writes, a destination write fails (optionally after a short write), a source read fails, the source file shrinks under the reader, or one process is stalled for T/2, 1.5T or 3T; non-trivial = the fault fired and termination, reports, fail lines and the goroutine-leak monitor were all evaluated; distinct = distinct (configuration + fault kind + hop, schedule-trace hash, tape hash)"})
 	reg(&propDef{id: "C07", level: "exploration", crashIsViol: true,
 		batches: []batch{{name: "collisions", quick: 1200, thorough: 40000}},
 		rule:    "each evaluation is one simulated transfer without -y into an adversarially pre-populated destination (colliding files/dirs, name.N series with gaps, names at the length limit, all 1001 candidate names taken, repeated transfer of the same sources); non-trivial = the receive completed (or failed as it must) and the before/after snapshot (inode, size, hash, mtime) was compared; distinct = distinct (prior-state class + configuration, schedule-trace hash)"})
